@@ -68,7 +68,7 @@ CLAIMED["C10"] = dict(
     note="Assumed: bindnode schema strictness (unknown, missing or wrongly typed payload fields are rejected by AssignNode against the embedded .ipldsch) — a dependency behaviour contracts cannot decide here; "
          "the reflection-based slow path of literal.Any (anyAssemble) is abstracted; policy.FromIPLD is used through a trusted contract (its shape is C14).",
     design="DESIGN.md §3 C10")
-for pid in ["C07","C09","C11","C14","C16","C19"]:
+for pid in ["C07","C09","C11","C16","C19"]:
     NOT_APPLICABLE[pid] = "contracts for this property are not registered yet in this tree (work in progress; see DESIGN.md §6 staging)"
 
 STREAM_NOTE = ("Assumed (trusted, stubs/io.spec): the io.Reader / io.Writer protocol; delivered/written and the fault counters failed/wfailed are ghost history variables of the "
@@ -114,3 +114,14 @@ CLAIMED["C12"] = dict(
          "The trace function is introduced by a definitional `given` clause (conservative: recursion over the selector). "
          "A quoted empty field name `[\"\"]` is represented like index 0 by the parser; the contract follows the representation (the text-level reading is C14).",
     design="DESIGN.md §3 C12, §7")
+
+CLAIMED["C14"] = dict(
+    text="Proof for the selector parser: tokenize is verified (loop invariant) to cut the text so that the first token starts it and the last token ends it — nothing after an unterminated quote is dropped — "
+         "and no token is empty; Parse is verified to produce exactly one segment per token that records the token's text (an optional marker on a mid-selector identity is the only normalisation), "
+         "the optional flag of the token, a well-formed slice (0 or 2 bounds) whose two bounds are owned by that segment alone, and a field segment for every quoted name (an empty quoted name is rejected); "
+         "rejected input returns no selector. policy.FromIPLD / statementFromIPLD / statementsFromIPLD are verified (mutual recursion with a termination measure on the node) to return one non-nil statement per list element, "
+         "carrying exactly the operator of that element, or an error.",
+    note="Not proved (honest gap): adjacency of the middle tokens (that consecutive tokens abut — would need a concatenation spec over the token slice) and therefore String(Parse(s)) == s; "
+         "policy write-back (ToIPLD after FromIPLD is deep-equal) and behavioural equality after a round trip are not under contract. "
+         "Assumed: what the three regular expressions guarantee about a matching text (first characters, presence of ':') — read off the patterns and stated as `given` clauses; strconv / strings helpers through stubs.",
+    design="DESIGN.md §3 C14, §7")
